@@ -622,7 +622,51 @@ class Evaluator:
         return Opq('const', repr(v))
 
     def e_Name(s, e, env, mod, depth):
-        return s.lookup(e.id, env, mod)
+        v = s.lookup(e.id, env, mod)
+        if isinstance(v, Opq) and v.k and v.k[0] == 'build':
+            b_ = s._blockify(v)          # a zero matrix whose quadrants were assigned by slices, read as a value, is the block matrix
+            if b_ is not None: return b_
+        return v
+
+    def _blockify(s, bt):
+        """M = zeros((R, C)); M[:p, :q] = X; M[p:, q:] = Y  (each store one quadrant of the 2 x 2 partition at (p, q), no quadrant twice, no other
+        store)  is  block([[X, 0], [0, Y]]) -- the same normal form as np.block / nested hstack-vstack.  None when the build is anything else"""
+        cache = s.__dict__.setdefault('_blockify_cache', {})
+        ck = id(bt)
+        if ck in cache and cache[ck][0] is bt: return cache[ck][1]
+        out = None
+        try:
+            base, recs = bt.k[1], bt.k[2]
+            ok = isinstance(base, Opq) and base.k and base.k[0] == 'np.zeros' and len(base.k) >= 2 and isinstance(base.k[1], (tuple, list)) and len(base.k[1]) == 2 \
+                and all(isinstance(x_, Poly) for x_ in base.k[1]) and all(isinstance(x_, Opq) and x_.k[0] == 'kw' and x_.k[1] == 'dtype' for x_ in base.k[2:]) and 1 <= len(recs) <= 4
+            split = [None, None]; blocks = {}
+            if ok:
+                tot = list(base.k[1])
+                for r_ in recs:
+                    if not (isinstance(r_, Opq) and r_.k[0] == 'st' and not r_.k[1] and r_.k[2] is True and len(r_.k[3]) == 2 and r_.k[5] is False): ok = False; break
+                    pos = []
+                    for ax_, ix_ in enumerate(r_.k[3]):
+                        if not (isinstance(ix_, Opq) and ix_.k[0] == 'slice' and len(ix_.k) == 4 and ix_.k[3] is None): ok = False; break
+                        lo, up = ix_.k[1], ix_.k[2]
+                        lo0 = lo is None or (isinstance(lo, Poly) and lo.is_zero())
+                        upN = up is None or (isinstance(up, Poly) and same(up, tot[ax_]))
+                        if lo0 and not upN and isinstance(up, Poly): which, p_ = 0, up
+                        elif upN and not lo0 and isinstance(lo, Poly): which, p_ = 1, lo
+                        else: ok = False; break
+                        if split[ax_] is None: split[ax_] = p_
+                        elif not same(split[ax_], p_): ok = False; break
+                        pos.append(which)
+                    if not ok: break
+                    if tuple(pos) in blocks: ok = False; break
+                    blocks[tuple(pos)] = r_.k[4]
+            if ok and split[0] is not None and split[1] is not None:
+                sizes = [[split[a_], tot[a_] - split[a_]] for a_ in (0, 1)]
+                rows_ = [[blocks.get((i_, j_), Opq('np.zeros', (sizes[0][i_], sizes[1][j_]))) for j_ in (0, 1)] for i_ in (0, 1)]
+                out = s.npcall('block', [rows_], {})
+        except Exception:
+            out = None
+        cache[ck] = (bt, out)
+        return out
 
     def e_UnaryOp(s, e, env, mod, depth):
         v = s.ev(e.operand, env, mod, depth)
